@@ -18,4 +18,6 @@ def run(ctx):
     obs += cp.warning_sink_rule(ctx, 'C17')
     # the low-priority stream is written through the serialising appenders only (shared with C08.sep)
     obs += [o for o in cp.sep_rule(ctx, 'C17') if '/owners/' in o['key']]
+    # the options are read-only while a sheet is compiled (wave 9; shared by C08, C09, C10, C17)
+    obs += cp.options_untouched_rule(ctx, 'C17')
     return obs
